@@ -27,8 +27,11 @@ MANIFEST_INFO = {
 }
 
 SUITE_KINDS = ("plain", "custom", "sorting", "filtering", "copying", "fixture")
-LEAF_LABELS = (("ph", "a"), ("ph", "b"), ("ph", "c"), ("tc", "a"))
-SUBSETS = [frozenset(s) for n in range(5) for s in itertools.combinations("abcz", n)]
+# (the third id has the text of unittest's import-failure pseudo tests in the middle: a test of a class
+# called TestModuleImportFailure is a test like any other)
+ID_C = "c.TestModuleImportFailure.test"
+LEAF_LABELS = (("ph", "a"), ("ph", "b"), ("ph", ID_C), ("tc", "a"))
+SUBSETS = [frozenset(s) for n in range(5) for s in itertools.combinations(("a", "b", ID_C, "z"), n)]
 
 
 class CustomSuite(unittest.TestSuite):
@@ -40,7 +43,8 @@ class SortingSuite(unittest.TestSuite):
 
     def sort_tests(self):
         type(self).sort_calls += 1
-        self._tests = list(sorted_tests(self, True))
+        # (sorts the list it has, in place; testtools' own FixtureSuite binds a new one)
+        self._tests[:] = list(sorted_tests(self, True))
 
 
 class FilteringSuite(unittest.TestSuite):
